@@ -782,8 +782,8 @@ func (p *Prog) CallersClosureWithin(targets map[*ssa.Function]bool, keep func(*s
 
 // Loop is a natural loop identified by its header block.
 type Loop struct {
-	Header *ssa.BasicBlock
-	Blocks map[*ssa.BasicBlock]bool
+	Header  *ssa.BasicBlock
+	Blocks  map[*ssa.BasicBlock]bool
 	Latches []*ssa.BasicBlock
 }
 
